@@ -19,9 +19,11 @@ PROP = dict(
           "be absent (operator[] returns \"\" either way) but are counted; in the raw file, after removing the entries and headers that are new since "
           "the last open, the comment lines (verbatim), section headers and entries must be exactly the original ones in the original order with "
           "the current values; the live object must answer has()/[] with the value just set. "
+          "inilong: small files (0..5 lines) and 1..5 sets that create sections, keys and values whose lengths lie around the 255/256-byte buffer of the "
+          "library's formatting helper (248..262 uniformly, 251..257 and 509..513, and 1..600), also for names already in the file; same oracle. "
           "csv: tables of 1..8 uniquely named identifier columns (given by columns(Array), columns(\"a,b\") or the constructor) and 0..30 rows of "
           "cells: ints (full 32-bit range and small), doubles (random bit patterns mapped into {0,-0} U [2^-962, 2^963), powers of ten, decimal "
-          "fractions, 15- and 16-digit values, products with 1e+-30, 1e+-200), empty strings, strings of up to 60 chars over letters, digits . - + "
+          "fractions, 15- and 16-digit values, products with 1e+-30, 1e+-200), empty strings, strings of up to 60 chars (a few of 248..262 and up to 600) over letters, digits . - + "
           "(never first), blank , ; \" ' _ including the hand-picked quote/separator shapes; tables of >= 2 columns also with setSeparator(';') + setDecimal(',') (the format the reader infers from a ';' header; string "
           "cells then do not start with ',') and with setSeparator(TAB); rows written cell by cell with << (int, double, "
           "String, const char*) or as one array Var. Oracle: the file is read back with data() and with nextRow() + operator[](int) + "
